@@ -31,10 +31,10 @@ def _compare_split(root, data, sites, seen, ctx, compressed=False):
         exp = _expected_shank(data, sites, sh)
         try:
             sr = spikeglx.Reader(f, sort=False)
-            got = np.array(sr._raw[:, :]) if not compressed else np.array(sr._raw[0:sr.ns])
             meta = dict(sr.meta)
             shape = sr.shape
             sr.close()
+            got = np2.read_raw(f, shape[1])
         except Exception as e:
             seen.setdefault("split:unreadable", "%s: shank %d file cannot be opened: %s: %s" % (ctx, sh, type(e).__name__, e))
             continue
